@@ -105,6 +105,13 @@ def one_model_cpp(chk, binary, name, em, user, funcs, cfg, stats):
     stats["cpp_compiled"] = stats.get("cpp_compiled", 0) + 1
     pos = -1
     text = first["text"]
+    # out-parameters declared MaybeUninit<T>: the wrapper goes, T stays exactly as written (T may be a nested template)
+    for want in getattr(em, "uninit_expected", []):
+        if want not in text:
+            chk.violation("C18:cpp:maybeuninit-parameter-mangled", "C++ model %s: expected `%s` in the processed header; the lines mentioning that function are %s" % (
+                name, want, [l.strip() for l in text.splitlines() if want.split("(")[0].split()[-1] in l][:2]), tag)
+            break
+        stats["cpp_uninit_params"] = stats.get("cpp_uninit_params", 0) + 1
     for decl in foreign_texts_cpp(user, funcs):
         p = text.find(decl)
         if p < 0:
@@ -129,10 +136,14 @@ def argv_checks(chk, binary):
         ([], ["-o", "OUT", "--crate", "x y", "-v"], ["--crate", "x y", "-v"], False),
         (["+nightly"], ["--crate", "api"], ["--crate", "api"], True),         # no output path: header goes to stdout
         ([], ["--output", "OUT"], [], False),
+        # another argument spelled like the output path: only the value *after* -o/--output is taken out
+        ([], ["--crate", "SAMEAS_OUT", "--lang", "C", "--output", "OUT"], ["--crate", "SAMEAS_OUT", "--lang", "C"], False),
+        (["+nightly"], ["-o", "OUT", "--crate", "SAMEAS_OUT", "-v"], ["--crate", "SAMEAS_OUT", "-v"], True),
     ]
     for pre, post, want, nightly in cases:
         out = os.path.join(w, "o%d.h" % n)
-        post2 = [out if a == "OUT" else a for a in post]
+        post2 = [out if a in ("OUT", "SAMEAS_OUT") else a for a in post]
+        want = [out if a == "SAMEAS_OUT" else a for a in want]
         r = bgrun.run_tool(binary, w, em.text, config={"default_container": "Box"} if n % 2 == 0 else None, pre_args=pre, post_args=post2, out_name="o%d.h" % n)
         n += 1
         got = [l[4:] for l in r["argv"].splitlines() if l.startswith("ARG ")]
